@@ -1,4 +1,5 @@
 import NavisModel.Model.Voxel
+import NavisModel.Model.Dotprops
 import NavisModel.Drv.Proto
 /-!
 Line protocol for C19.  Rationals are `n` or `n/d`; a 3-vector is `a,b,c`; lists of vectors use `;`; sections `|`.
@@ -10,6 +11,18 @@ Line protocol for C19.  Rationals are `n` or `n/d`; a 3-vector is `a,b,c`; lists
 * `c19.tan id,parent,x,y,z;…`             → `px,py,pz,vx,vy,vz,len2;…` or `ERR:KeyError`
 * `c19.kclip n k`                         → `min n k`
 * `c19.alpha s1 s2 s3`                    → rational (`0` when the sum is not positive)
+
+Second pass (exact checkers of `Model/Dotprops.lean`, proved sound in `Props/C19`, evaluated on navis' own output):
+* `c19.dots k εu εv εa | pts | vects | alphas` → `k=<kClip>|n=<points>|v=<verdict>;…`  (`amb` = neighbourhood not determined)
+* `c19.knn k | p | pts`                   → `nb=x,y,z;…|amb=0/1`
+* `c19.voxvec pitch | lo | hi | u | pts | i,j,k,vx,vy,vz,a;… | εu εv εa` → `v=<verdict>;…|n=<points per cell>,…`
+* `c19.tancheck ε | rows | vx,vy,vz,L;…`  → `ok=0/1,…|sign=±1,…|n=<tangents>` or `ERR:KeyError`
+* `c19.checkat pitch | lo | hi | u | off | units | pts | F` → `cover=0/1 sourced=0/1` (navis' *reported* offset / units)
+* `c19.vmapidx nV nNodes | vm | need`     → `ok=0/1 covers=0/1`
+* `c19.vmapid nV | vm | ids`              → `ok=0/1`
+* `c19.bbox tol | V | P`                  → `ok=0/1`
+* `c19.surf tol | off | units | shape | V | F` → `hugs=0/1 extent=0/1`
+* `c19.mapunits q factor umag`            → `<pitch in neuron units> <reported voxel size>`
 -/
 namespace Navis.Drv.C19
 open Navis.Voxel Navis.Proto
@@ -103,6 +116,100 @@ def run (cmd : String) (rest : String) : Option String :=
     | [a, b, c] => do
       let a ← parseRat a; let b ← parseRat b; let c ← parseRat c
       pure (showRat (alpha a b c))
+    | _ => none
+  | "dots" => match rest.splitOn "|" with
+    | [hd, pts, vs, as] => match words hd with
+      | [k, eu, ev, ea] => do
+        let k ← k.toNat?; let eu ← parseRat eu; let ev ← parseRat ev; let ea ← parseRat ea
+        let pts ← parseList parseP3 pts
+        let vs ← parseList parseP3 vs
+        let as ← parseList parseRat as
+        if vs.length != pts.length || as.length != pts.length then none else
+        let kc := kClip pts.length k
+        let verdicts := (pts.zip (vs.zip as)).map fun (p, v, a) =>
+          if knnAmbiguous pts p kc then "amb" else (judge (knn pts p kc) v a eu ev ea).toString
+        pure s!"k={kc}|n={pts.length}|v={";".intercalate verdicts}"
+      | _ => none
+    | _ => none
+  | "knn" => match rest.splitOn "|" with
+    | [k, p, pts] => do
+      let k ← (trim k).toNat?; let p ← parseP3 p; let pts ← parseList parseP3 pts
+      pure s!"nb={";".intercalate ((knn pts p k).map showP3)}|amb={b01 (knnAmbiguous pts p k)}"
+    | _ => none
+  | "voxvec" => match rest.splitOn "|" with
+    | [pitch, lo, hi, u, pts, cells, eps] => match words eps with
+      | [eu, ev, ea] => do
+        let g ← parseGrid pitch lo hi u
+        let pts ← parseList parseP3 pts
+        let eu ← parseRat eu; let ev ← parseRat ev; let ea ← parseRat ea
+        let cells ← parseList (fun c => match (trim c).splitOn "," with
+          | [i, j, k, vx, vy, vz, a] => do
+            let i ← (trim i).toInt?; let j ← (trim j).toInt?; let k ← (trim k).toInt?
+            let vx ← parseRat vx; let vy ← parseRat vy; let vz ← parseRat vz; let a ← parseRat a
+            pure ((⟨i, j, k⟩ : I3), (⟨vx, vy, vz⟩ : P3), a)
+          | _ => none) cells
+        let res := cells.map fun (c, v, a) =>
+          let nb := pointsIn g pts c
+          ((judge nb v a eu ev ea).toString, nb.length)
+        pure s!"v={";".intercalate (res.map (·.1))}|n={",".intercalate (res.map fun r => toString r.2)}"
+      | _ => none
+    | _ => none
+  | "tancheck" => match rest.splitOn "|" with
+    | [eps, rows, obs] => do
+      let eps ← parseRat eps
+      let rows ← parseList parseRow rows
+      let obs ← parseList (fun c => match (trim c).splitOn "," with
+        | [vx, vy, vz, l] => do
+          let vx ← parseRat vx; let vy ← parseRat vy; let vz ← parseRat vz; let l ← parseRat l
+          pure ((⟨vx, vy, vz⟩ : P3), l)
+        | _ => none) obs
+      match tangents rows with
+      | none => pure "ERR:KeyError"
+      | some ts =>
+        if ts.length != obs.length then pure s!"ok=|sign=|n={ts.length}" else
+        let r := (ts.zip obs).map fun (tg, v, l) => (b01 (tanOKB tg v l eps), toString (tanSign tg v))
+        pure s!"ok={",".intercalate (r.map (·.1))}|sign={",".intercalate (r.map (·.2))}|n={ts.length}"
+    | _ => none
+  | "checkat" => match rest.splitOn "|" with
+    | [pitch, lo, hi, u, off, un, pts, F] => do
+      let g ← parseGrid pitch lo hi u
+      let off ← parseP3 off; let un ← parseP3 un
+      let pts ← parseList parseP3 pts
+      let F ← parseList parseI3 F
+      pure s!"cover={b01 (coversAtB g off un pts F)} sourced={b01 (sourcedAtB g off un pts F)}"
+    | _ => none
+  | "vmapidx" => match rest.splitOn "|" with
+    | [hd, vm, need] => match words hd with
+      | [nV, nN] => do
+        let nV ← nV.toNat?; let nN ← nN.toNat?
+        let vm ← intList? vm; let need ← intList? need
+        pure s!"ok={b01 (vmapIndexOKB vm nV nN)} covers={b01 (vmapCoversB vm need)}"
+      | _ => none
+    | _ => none
+  | "vmapid" => match rest.splitOn "|" with
+    | [nV, vm, ids] => do
+      let nV ← (trim nV).toNat?
+      let vm ← intList? vm; let ids ← intList? ids
+      pure s!"ok={b01 (vmapIdOKB vm nV ids)}"
+    | _ => none
+  | "bbox" => match rest.splitOn "|" with
+    | [tol, V, P] => do
+      let tol ← parseRat tol
+      let V ← parseList parseP3 V; let P ← parseList parseP3 P
+      pure s!"ok={b01 (bboxContainsB V P tol)}"
+    | _ => none
+  | "surf" => match rest.splitOn "|" with
+    | [tol, off, un, sh, V, F] => do
+      let tol ← parseRat tol
+      let off ← parseP3 off; let un ← parseP3 un; let sh ← parseI3 sh
+      let V ← parseList parseP3 V; let F ← parseList parseI3 F
+      pure s!"hugs={b01 (surfaceHugsFastB off un tol V F)} extent={b01 (surfaceInExtentB off un sh tol V)}"
+    | _ => none
+  | "mapunits" => match words rest with
+    | [q, f, u] => do
+      let q ← parseRat q; let f ← parseRat f; let u ← parseRat u
+      if u == 0 then none else
+      pure s!"{showRat (mapUnits q f u)} {showRat (units1 (mapUnits q f u) u)}"
     | _ => none
   | _ => none
 
